@@ -40,7 +40,7 @@ pub fn check() -> Check {
         spec: CheckSpec {
             prop: "C13",
             level: "fault_enumeration",
-            rule: "execution = one real node with 1-3 subscriptions (single-table and join queries) + a history of 4-14 transactions with logical matcher quiescence after each; crash images (copy of the database, its WAL and every subscription database) taken by hook callbacks at sub.created, sub.initial_committed, match.before_commit (n-th), sub.draining, sub.completed, by the harness while the subscription is idle, and again while the restored subscription runs in its second life; then a shutdown in the order of `corrosion agent` (tripwire, SubsManager::drop_handles, wait for counted tasks), in half of the executions with 2-6 transactions that were accepted before the shutdown began and commit while it proceeds (they queue behind a write connection the harness releases after tripping the wire); restart on the same files: same id served, snapshot rows == query on the database, snapshot change id == newest id of the change log >= the last id seen before shutdown, resuming from an earlier id replays exactly the changes seen before, a new change gets the next id, rows == query at quiescence; every crash image is booted with the real start-up path: subscription served only if its image was taken at/after sub.completed (then rows == query), otherwise GET by id gives 404 and its directory is gone; non-trivial = execution with a clean restart of a subscription that had received changes and at least 3 unclean images booted; distinct by hash of the history",
+            rule: "execution = one real node with 1-3 subscriptions (single-table and join queries) + a history of 4-14 transactions with logical matcher quiescence after each; crash images (copy of the database, its WAL and every subscription database) taken by hook callbacks at sub.created, sub.initial_committed, match.before_commit (n-th), sub.draining, sub.completed, by the harness while the subscription is idle, and again while the restored subscription runs in its second life; then a shutdown in the order of `corrosion agent` (tripwire, SubsManager::drop_handles, wait for counted tasks), in half of the executions with 2-6 transactions that were accepted before the shutdown began and commit while it proceeds (they queue behind a write connection the harness releases after tripping the wire; in half of those the subscription handles are dropped only after the monitor saw every late version handed to every subscription, so a divergence there cannot be the known ordering defect F23); restart on the same files: same id served, snapshot rows == query on the database, snapshot change id == newest id of the change log >= the last id seen before shutdown, resuming from an earlier id replays exactly the changes seen before, a new change gets the next id, rows == query at quiescence; every crash image is booted with the real start-up path: subscription served only if its image was taken at/after sub.completed (then rows == query), otherwise GET by id gives 404 and its directory is gone; non-trivial = execution with a clean restart of a subscription that had received changes and at least 3 unclean images booted; distinct by hash of the history",
             assumptions: &[
                 "the shutdown order of the binary (command/agent.rs) is reproduced in process; OS-level signal handling is not part of the execution",
                 "crash model: process death with intact files; every image is taken while no transaction is in flight (the draining/completed images come after the in-flight requests of the shutdown have finished, as in the binary, which awaits its server handles before dropping the subscription handles)",
@@ -101,20 +101,51 @@ async fn opts(schema: bool) -> NodeOpts {
 /// the shutdown of `corrosion agent`, in process: trip the wire, let the requests that were
 /// already accepted finish (the binary awaits its server handles), drop the subscription
 /// handles, wait for the counted tasks
-async fn graceful_shutdown(node: Node, hold: Option<klukai_types::agent::WriteConn>, in_flight: Vec<tokio::task::JoinHandle<u16>>) -> (tempfile::TempDir, u64) {
+async fn graceful_shutdown(node: Node, hold: Option<klukai_types::agent::WriteConn>, in_flight: Vec<tokio::task::JoinHandle<(u16, bool)>>, wait_matched: Option<(&mut Pump, &[String])>) -> (tempfile::TempDir, u64, bool) {
     let agent = node.agent.clone();
+    // feeds every subscription had been handed before the shutdown began
+    let mut wait_matched = wait_matched;
+    let base: Vec<u64> = match wait_matched.as_mut() {
+        Some((pump, keys)) => {
+            pump.pump();
+            keys.iter().map(|k| pump.matchers.get(k).map(|m| m.sent).unwrap_or(0)).collect()
+        }
+        None => vec![],
+    };
     let dir = node.shutdown().await;
     drop(hold);
     let mut ok = 0;
+    let mut versions = 0u64;
     for w in in_flight {
-        if let Ok(200) = w.await {
+        if let Ok((200, had_version)) = w.await {
             ok += 1;
+            if had_version {
+                versions += 1;
+            }
+        }
+    }
+    // optionally let every late transaction be handed to the subscriptions first (that is done
+    // by a task spawned after its commit, one feed per subscription and version): then the
+    // order of that task and of dropping the handles cannot be what loses a change
+    let mut all_matched = false;
+    if let Some((pump, keys)) = wait_matched {
+        let deadline = std::time::Instant::now() + Duration::from_secs(20);
+        loop {
+            pump.pump();
+            if keys.iter().zip(base.iter()).all(|(k, b)| pump.matchers.get(k).map(|m| m.sent).unwrap_or(0) >= b + versions) {
+                all_matched = true;
+                break;
+            }
+            if std::time::Instant::now() > deadline {
+                break;
+            }
+            tokio::time::sleep(Duration::from_millis(5)).await;
         }
     }
     agent.subs_manager().drop_handles().await;
     drop(agent);
     klukai_types::spawn::wait_for_all_pending_handles().await;
-    (dir, ok)
+    (dir, ok, all_matched)
 }
 
 fn sub_state(dir: &Path, id: Uuid) -> Option<String> {
@@ -241,22 +272,31 @@ pub async fn one_execution(seed: u64) -> Result<ExecOut, String> {
                 let mut rng = rand::rngs::StdRng::seed_from_u64(rs);
                 let mut info = TxInfo::default();
                 let stmts: Vec<Statement> = (0..rng.random_range(1..=3)).map(|_| subs::random_stmt(&mut rng, &["p", "c"], &mut info)).collect();
-                let (status, _) = klukai_agent::api::public::api_v1_transactions(
+                let (status, body) = klukai_agent::api::public::api_v1_transactions(
                     axum::Extension(agent),
                     axum::extract::Query(klukai_agent::api::public::TimeoutParams { timeout: None }),
                     axum::extract::Json(stmts),
                 )
                 .await;
-                status.as_u16()
+                (status.as_u16(), body.0.version.is_some())
             }));
         }
         tokio::time::sleep(Duration::from_millis(30)).await;
     }
     drop(conns);
     drop(sc);
-    let (dir, late_ok) = graceful_shutdown(node, hold, writers).await;
+    // in half of those the handles are dropped only after every late transaction was handed to
+    // the subscriptions
+    let wait_fed = concurrent && rng.random_range(0..2) == 0;
+    let (dir, late_ok, all_fed) = graceful_shutdown(node, hold, writers, if wait_fed { Some((&mut pump, &keys)) } else { None }).await;
     stat!("transactions_committed_during_shutdown", late_ok);
-    history.push(format!("shutdown(concurrent={concurrent},late_ok={late_ok})"));
+    if wait_fed && late_ok > 0 {
+        stat!(if all_fed { "shutdowns_after_every_late_transaction_was_fed" } else { "shutdowns_where_feeding_was_not_observed" }, 1);
+    }
+    history.push(format!("shutdown(concurrent={concurrent},late_ok={late_ok},wait_fed={wait_fed})"));
+    // F23 is about a transaction that is fed to the subscriptions after their handles were
+    // dropped; when every late transaction was observed to be fed before, a divergence is not it
+    let late_sig = late_ok > 0 && !all_fed;
     verif::clear_callbacks();
     let states: Vec<Option<String>> = subs_info.iter().map(|s| sub_state(dir.path(), s.id)).collect();
 
@@ -283,8 +323,8 @@ pub async fn one_execution(seed: u64) -> Result<ExecOut, String> {
                 let r = subs::multiset_of(&conn.replay.rows);
                 if q != r {
                     violations.push((
-                        if late_ok > 0 { "clean/rows-after-restart-differ-from-query-after-transactions-committed-during-shutdown" } else { "clean/rows-after-restart-differ-from-query" }.into(),
-                        json!({"sql": s.sql, "diff(rows vs query)": subs::multiset_diff(&r, &q), "transactions_committed_during_shutdown": late_ok, "history": hist}),
+                        if late_sig { "clean/rows-after-restart-differ-from-query-after-transactions-committed-during-shutdown" } else if late_ok > 0 { "clean/rows-after-restart-differ-from-query-although-every-transaction-committed-during-shutdown-was-fed-to-the-subscription" } else { "clean/rows-after-restart-differ-from-query" }.into(),
+                        json!({"sql": s.sql, "diff(rows vs query)": subs::multiset_diff(&r, &q), "transactions_committed_during_shutdown": late_ok, "every_late_transaction_fed_before_handles_dropped": all_fed, "history": hist}),
                     ));
                 }
                 let (_, max_id, _) = subs::materialised(&node, s.id, s.ncols)?;
@@ -366,7 +406,7 @@ pub async fn one_execution(seed: u64) -> Result<ExecOut, String> {
     }
     drop(restored);
     drop(sc);
-    drop(graceful_shutdown(node, None, vec![]).await);
+    drop(graceful_shutdown(node, None, vec![], None).await);
 
     // ---- every crash image is booted
     let imgs: Vec<Image> = std::mem::take(&mut *images.lock().unwrap());
@@ -402,7 +442,7 @@ pub async fn one_execution(seed: u64) -> Result<ExecOut, String> {
                         let q = subs::query_multiset(&*inode.ro().map_err(|e| e.to_string())?, &s.sql).map_err(|e| e.to_string())?;
                         let r = subs::multiset_of(&conn.replay.rows);
                         if q != r {
-                            violations.push((if late_ok > 0 { "clean/image-of-completed-subscription-differs-from-query-after-transactions-committed-during-shutdown" } else { "unclean/restored-image-rows-differ-from-query" }.into(), json!({"image": label, "sql": s.sql, "diff(rows vs query)": subs::multiset_diff(&r, &q), "history": hist})));
+                            violations.push((if late_sig { "clean/image-of-completed-subscription-differs-from-query-after-transactions-committed-during-shutdown" } else { "unclean/restored-image-rows-differ-from-query" }.into(), json!({"image": label, "sql": s.sql, "diff(rows vs query)": subs::multiset_diff(&r, &q), "history": hist})));
                         }
                     }
                 }
@@ -427,7 +467,7 @@ pub async fn one_execution(seed: u64) -> Result<ExecOut, String> {
             }
         }
         drop(isc);
-        drop(graceful_shutdown(inode, None, vec![]).await);
+        drop(graceful_shutdown(inode, None, vec![], None).await);
     }
 
     let nontrivial = had_changes && unclean_booted >= 3 && stats.get("subscriptions_restored").copied().unwrap_or(0) > 0;
